@@ -396,6 +396,55 @@ def check_sum_case(T, sc, stats):
         W.close()
 
 
+def check_generate(T, stats):
+    """asconcrypt -g KEYFILE: 40 characters + newline; a failing random source or write must exit non-zero and leave no key file."""
+    W = Work()
+    try:
+        wd = W.sub()
+        rc, so, se = runp([T["asconcrypt"], "-g", "key.txt"], wd)
+        stats["runs"] += 1
+        kp = os.path.join(wd, "key.txt")
+        data = open(kp, "rb").read() if os.path.exists(kp) else None
+        if rc != 0 or data is None or len(data) != 41 or not data.endswith(b"\n"):
+            return ("asconcrypt -g: rc=%d, key file %r" % (rc, data), {"step": "generate"})
+        # the generated key file must work as a password
+        sc = {"size": 100, "cseed": 7, "password": data[:-1].decode("latin-1"), "pwmode": "k", "naming": "o", "name": "genkey.dat"}
+        wd2 = W.sub()
+        rc2, se2, encp = encrypt(T, sc, wd2)
+        stats["runs"] += 1
+        if rc2 != 0 or encp is None:
+            return ("a key file written by asconcrypt -g is rejected (rc=%d)" % rc2, {"step": "generate"})
+        for op, kinds in (("getrandom", ("fail",)), ("write", ("fail", "short", "eintr"))):
+            for k in (1, 2):
+                for kind in kinds:
+                    wd3 = W.sub()
+                    rc3, so3, se3 = runp([T["asconcrypt"], "-g", "key.txt"], wd3, {"LD_PRELOAD": shim_path(), "FAULTIO": "%s:%d:%s" % (op, k, kind)})
+                    stats["runs"] += 1
+                    stats["faults"] += 1
+                    stats["nontrivial"].add(("generate-fault", op, k, kind))
+                    kp3 = os.path.join(wd3, "key.txt")
+                    ex = os.path.exists(kp3)
+                    what = "asconcrypt -g with the %s call #%d set to '%s'" % (op, k, kind)
+                    if kind == "fail" and op == "getrandom" and k == 1 or kind == "fail" and op == "write":
+                        d3 = open(kp3, "rb").read() if ex else None
+                        # a write that never happens (k beyond the number of writes) is not a fault
+                        if rc3 == 0 and d3 is not None and len(d3) == 41:
+                            continue
+                        if rc3 == 0:
+                            return (what + ": exited 0 with key file %r" % d3, {"step": "generate-fault", "op": op, "k": k, "kind": kind})
+                        if rc3 < 0:
+                            return (what + ": died with signal %d" % -rc3, {"step": "generate-fault", "op": op, "k": k, "kind": kind})
+                        if ex:
+                            return (what + ": exited %d but left a key file behind" % rc3, {"step": "generate-fault", "op": op, "k": k, "kind": kind})
+                    elif kind in ("short", "eintr"):
+                        d3 = open(kp3, "rb").read() if ex else None
+                        if rc3 != 0 or d3 is None or len(d3) != 41:
+                            return (what + ": a survivable condition broke key generation (rc=%d, file %r)" % (rc3, d3), {"step": "generate-fault", "op": op, "k": k, "kind": kind})
+        return None
+    finally:
+        W.close()
+
+
 def finding_key_for(msg, detail):
     step = detail.get("step", "?")
     if step == "fault":
@@ -458,6 +507,11 @@ def run_check(tier):
         sc, (msg, detail) = state["fail"]
         record(ev, finding_key_for(msg, detail), {"kind": "tool", "tool": "asconcrypt", "scenario": sc, "detail": detail, "message": msg, "check": PROP}, msg, seen)
 
+    r = check_generate(T, stats)
+    if r is not None:
+        record(ev, "asconcrypt:generate:%s" % r[1].get("step"), {"kind": "tool", "tool": "asconcrypt-g", "scenario": {}, "detail": r[1], "message": r[0], "check": PROP}, r[0], seen)
+    ev.classes["asconcrypt -g scenarios"] = 1
+
     # asconsum
     state2 = {"fail": None, "after": 0}
     nm = st.text(st.characters(min_codepoint=97, max_codepoint=122), min_size=1, max_size=20).map(lambda s: "f_" + s)
@@ -517,7 +571,9 @@ def replay(path):
     obj = json.load(open(path))
     T = tools()
     stats = {"runs": 0, "nontrivial": set(), "faults": 0}
-    if obj["tool"] == "asconsum":
+    if obj["tool"] == "asconcrypt-g":
+        r = check_generate(T, stats)
+    elif obj["tool"] == "asconsum":
         r = check_sum_case(T, obj["scenario"], stats)
     else:
         r = check_case(T, obj["scenario"], stats, "thorough")
